@@ -33,7 +33,10 @@ open Martian
 inductive Ev where
   | data (bs : Bytes)   -- bytes become readable (and the destination takes them)
   | eof                 -- the side finished sending (CloseWrite or Close): `Read` returns `io.EOF`
-  | rerr                -- `Read` fails: the side closed abortively (RST → ECONNRESET), or a deadline passed
+  | rerr                -- `Read` fails: the side closed abortively (RST → ECONNRESET)
+  | deadline            -- `Read` fails with a timeout: the deadline that handleLoop armed on the client
+                        -- connection before this exchange (`conn.SetDeadline(now + p.timeout)`) has passed;
+                        -- nothing in the tunnel branch re-arms or clears it
   | dataW (bs : Bytes) (n : Nat)
                         -- bytes become readable but the destination is gone (it closed, or reset the
                         -- connection): the writes accept only the first `n` bytes, then `Write` fails
@@ -126,6 +129,7 @@ def Ev.ending : Ev → Option EndReason
   | .data _ => none
   | .eof => some .eof
   | .rerr => some .readErr
+  | .deadline => some .readErr
   | .dataW _ _ => some .writeErr
 
 /-- The bytes of the event that the destination accepted. -/
@@ -133,6 +137,7 @@ def Ev.accepted : Ev → Bytes
   | .data bs => bs
   | .eof => []
   | .rerr => []
+  | .deadline => []
   | .dataW bs n => bs.take n
 
 /-- React to one event and run to the next quiescent point. After `io.Copy` has returned — with
